@@ -60,7 +60,7 @@ ClassE(e, cls, envc, dbc) ==
 
 AggClass(a, cls, envc, dbc) ==
   CASE a.f \in {"count", "sum"} -> "i"
-    [] a.f = "avg" -> "n"
+    [] a.f \in {"avg", "var_pop", "var_samp"} -> "n"
     [] a.f \in {"bool_and", "bool_or"} -> "b"
     [] OTHER -> ClassE(a.x, cls, envc, dbc)
 
